@@ -27,8 +27,8 @@ func init() {
 		Assumptions:    []string{"lock held at both accesses implies no data race", "sync.Pool hands an object to one borrower at a time", trustDeps},
 	}
 	Properties["C08"] = PropSpec{
-		Rules:       []Rule{Stateless, Slots, MapOrder("(*SchemaValidator).Validate", "(*ParamValidator).Validate", "(*HeaderValidator).Validate")},
-		Explanation: "STATELESS effect analysis over every function: each store into a field (or element of an array/slice/map held in a field) of the 13 validator types outside their constructors, and each call of a receiver-mutating method (summaries computed, interface dispatch resolved by method name over the implementations), is (i) guarded by the recycle option (directly or because the enclosing function is recycle-only, greatest fixpoint over call sites), (ii) applied to an object constructed in the same activation, or (iii) applied to an ephemeral type whose every instance is created, run once and dropped. SLOT-INIT: children are built only in the parent's constructor from distinct constructor calls; SLOT-ONESHOT: per-element validators are fresh.",
+		Rules:       []Rule{Stateless, Slots, OptionsRoundTrip, MapOrder("(*SchemaValidator).Validate", "(*ParamValidator).Validate", "(*HeaderValidator).Validate")},
+		Explanation: "STATELESS effect analysis over every function: each store into a field (or element of an array/slice/map held in a field) of the 13 validator types outside their constructors, and each call of a receiver-mutating method (summaries computed, interface dispatch resolved by method name over the implementations), is (i) guarded by the recycle option (directly or because the enclosing function is recycle-only, greatest fixpoint over call sites), (ii) applied to an object constructed in the same activation, or (iii) applied to an ephemeral type whose every instance is created, run once and dropped. SLOT-INIT: children are built only in the parent's constructor from distinct constructor calls; SLOT-ONESHOT: per-element validators are fresh. OPTIONS-ROUNDTRIP: every option returned by SchemaValidatorOptions.Options() restores exactly the field it was read from and every field is replayed, so a validator configured from another one's options is not silently switched to the one-shot recycling mode.",
 		NotDecided:  "Determinism of dependencies; lazy spec.ExpandSchema on sub-schemas that still contain $ref; equality of message sets across repetitions (behavioural).",
 		Assumptions: []string{"validator state = fields of the validator types; caller-supplied registries are outside", trustDeps},
 	}
